@@ -170,11 +170,40 @@ fn install_seams(plan: &Plan) {
     vh::set_initial_tsn_override(None);
 }
 
+/// (installed once the run's shared record exists: fired preemptions are counted as faults)
+fn install_preempt(plan: &Plan, sh: SharedRef) {
+    // knob preempt_pct / preempt_us: at that share of rustrtc's named preemption points (statements of an await-free region
+    // between which another OS thread could run on a multi-threaded runtime) the running task is descheduled for
+    // preempt_us virtual microseconds (0 = one scheduler turn)
+    let ppct = plan.knob("preempt_pct", 0).clamp(0, 100) as u64;
+    if ppct > 0 {
+        let mut y = Rng::new(mix(plan.sched.rng_seed, 0x707265656d7074));
+        let us = plan.knob("preempt_us", 2000).clamp(0, 1_000_000) as u64;
+        let sh2 = Some(sh);
+        let only = plan.knob("preempt_only", 0);
+        vh::set_preempt_decider(Some(Box::new(move |name| {
+            // knob preempt_only: 0 = every named point, 1 = only the first point of a pair ("...published"), 2 = only the second
+            let wanted = match only { 1 => name.ends_with("epoch_stored"), 2 => !name.ends_with("epoch_stored"), _ => true };
+            if wanted && y.below(100) < ppct {
+                if let Some(sh) = &sh2 {
+                    sh.lock().unwrap().stat(&format!("fault.preempt.{name}"), 1);
+                }
+                Some(std::time::Duration::from_micros(us))
+            } else {
+                None
+            }
+        })));
+    } else {
+        vh::set_preempt_decider(None);
+    }
+}
+
 fn clear_seams() {
     vh::set_random_source(None);
     vh::set_certificate_source(None);
     vh::set_defer_decider(None);
     vh::set_io_yield_decider(None);
+    vh::set_preempt_decider(None);
     vh::set_udp_binder(None);
     vh::set_tcp_binder(None);
     vh::set_initial_tsn_override(None);
@@ -202,6 +231,7 @@ pub fn run_plan(plan: &Plan, keep_log: bool) -> Outcome {
             vh::reset_clock(1_800_000_000_000 + (plan2.knob("unix_skew_ms", 0) as u64));
             let sh: SharedRef = Arc::new(Mutex::new(Shared::new(keep_log)));
             *shared2.lock().unwrap() = Some(sh.clone());
+            install_preempt(&plan2, sh.clone());
             let keys: KeyTable = Arc::new(Mutex::new(Vec::new()));
             let net = SimNet::new(&plan2, sh.clone(), Box::new(StdMonitor::new(keys.clone())));
             let nt = tokio::spawn(net.clone().run());
